@@ -4,6 +4,7 @@ import Heathcliff.Proofs.GenRns2
 import Heathcliff.Proofs.GenRns5
 import Heathcliff.Proofs.GenRns8
 import Heathcliff.Proofs.GenRns11
+import Heathcliff.Proofs.GenRns14
 
 /- Property theorems only (statements verbatim; proofs are the helper lemmas of Heathcliff/Proofs). -/
 namespace HC.C10
@@ -207,5 +208,14 @@ theorem gen_fastbconv_sk_eq : type_of% @HC.gr_fastbconv_sk_eq := @HC.gr_fastbcon
 /-- END TO END (exact window): if coefficient `j` holds the residues of an integer `V j` modulo the primes of `B` and modulo `m_sk` and
     `2|V j| + 2·|B|·prod(B) ≤ prod(B)·m_sk`, the GENERATED `fastbconv_sk` writes `V j mod q_i` at position `i·n + j` of any destination buffer -/
 theorem gen_fastbconv_sk_exact : type_of% @HC.gr_fastbconv_sk_exact := @HC.gr_fastbconv_sk_exact
+
+/-- BRIDGE between the two generated files: `polymod::multiply_scalar_p` (generated into `Gen/PolyFns.lean`, block form `gen_poly_multiply_scalar_p_blocks`
+    of C02) on a flat buffer of `sq` components into a zeroed scratch buffer = component-wise `mulMod · s q_i` -/
+theorem gen_multiply_scalar_p_components : type_of% @HC.gr_msp_list := @HC.gr_msp_list
+/-- `RNSTool::fastbconv_m_tilde` generated from the source = `RNSTool.fastbconvMTilde`; it calls the GENERATED `multiply_scalar_p` and twice the generated
+    `fast_convert_array` (on the model's `qToBsk`, `qToMt`), each conversion writing a sub-slice of ANY destination buffer of `|Bsk| + 1` components -/
+theorem gen_fastbconv_m_tilde_eq : type_of% @HC.gr_fastbconv_m_tilde_eq := @HC.gr_fastbconv_m_tilde_eq
+/-- END TO END: all `|Bsk| + 1` outputs of the generated `fastbconv_m_tilde` are residues of ONE integer `[m̃·X_j]_Q + α_j·Q`, `α_j < |q|` -/
+theorem gen_fastbconv_m_tilde_crt : type_of% @HC.gr_fastbconv_m_tilde_crt := @HC.gr_fastbconv_m_tilde_crt
 
 end HC.C10
